@@ -20,7 +20,7 @@ CLAUSE_PROP = {
     # C09: write, then read back, then use
     "call_plan_preds_done": "C09", "read_plan_preds_done": "C09", "write_plan_preds_done": "C09",
     "c09_arg_read_back": "C09", "c09_arg_written_first": "C09", "c09_dep_written_first": "C09",
-    "c09_read_after_write": "C09", "c09_depsrc_after_deps": "C09", "c09_upstream_written_first": "C09",
+    "c09_read_after_write": "C09", "c09_depsrc_after_deps": "C09", "c09_depsrc_after_stored_deps": "C09", "c09_upstream_written_first": "C09",
     "call_value_from_read_args": "C09", "inv_DownstreamRebuilt": "C09",
     # C03: same outputs and stored values as from scratch
     "end_output_value": "C03", "inv_SameAsFromScratch": "C03", "write_value_is_result": "C03",
